@@ -108,6 +108,20 @@ def corr_samplers(n_quick, n_thorough):
     return run
 
 
+def corr_labels(n_quick, n_thorough):
+    def run(tier, seed):
+        import corr_labels as C
+        return C.run(seed, n_quick if tier == 'quick' else n_thorough)
+    return run
+
+
+def corr_dispatch(n_quick, n_thorough):
+    def run(tier, seed):
+        import corr_dispatch as C
+        return C.run(seed, n_quick if tier == 'quick' else n_thorough)
+    return run
+
+
 CONV_FUNCS = ['normalize_bbox', 'denormalize_bbox', 'convert_bbox_to_dicaugment', 'convert_bbox_from_dicaugment',
               'check_bbox', 'convert_keypoint_to_dicaugment', 'convert_keypoint_from_dicaugment', 'check_keypoint',
               'angle_to_2pi_range', 'convert_bboxes_to_dicaugment', 'convert_bboxes_from_dicaugment',
@@ -133,7 +147,7 @@ PROPS['C10'] = {
 
 ARR_FUNCS = ['vflip', 'hflip', 'zflip', 'random_flip', 'transpose', 'rot90', '_pad', 'pad_with_params', 'pad',
              'cutout', 'random_crop', 'center_crop', 'crop', 'clamping_crop', 'resize', '_resize', 'scale',
-             'longest_max_size', 'smallest_max_size']
+             'longest_max_size', 'smallest_max_size', 'crop_and_pad']
 BOX_FUNCS = ['bbox_vflip', 'bbox_hflip', 'bbox_zflip', 'bbox_flip', 'bbox_transpose', 'bbox_rot90',
              'normalize_bbox', 'denormalize_bbox', 'crop_bbox_by_coords', 'bbox_random_crop', 'bbox_center_crop',
              'bbox_crop', 'crop_and_pad_bbox', 'get_random_crop_coords', 'get_center_crop_coords']
@@ -228,10 +242,11 @@ PROPS['C15'] = {
 }
 
 PROPS['C05'] = {
-    'requires': [], 'search': 'C05',
+    'requires': [], 'corr': corr_labels(200, 4000), 'search': 'C05',
     'trusted_base': ['coq/model/Labels.v is hand-written (dict manipulation of DataProcessor is outside the translator); '
-                     'tied to the code by the implementation-side differential search (survivors identified by an id '
-                     'smuggled in as an inline field, labels of mixed Python types)'],
+                     'tied to the code by harness/corr_labels.py (the real add_label_fields_to_data / '
+                     'remove_label_fields_from_data of both processors around random maps and filters, any number of label '
+                     'fields and inline fields, all-dropped cases) and by the differential search through Compose'],
     'assumptions': ['a transform acts on annotations as map-on-geometry + filter (DualTransform.apply_to_bboxes / '
                     'apply_to_keypoints; CoarseDropout.apply_to_keypoints is a filter)'],
     'level_text': 'labels_follow and order preservation are proved for every pipeline of geometry maps and filters, any '
@@ -262,9 +277,11 @@ PROPS['C14'] = {
 }
 
 PROPS['C12'] = {
-    'requires': [], 'corr': corr_classtab(), 'search': 'C12',
+    'requires': [], 'corr': corr_multi(corr_classtab(), corr_dispatch(200, 3000)), 'search': 'C12',
     'trusted_base': CLASSTAB_TRUSTED + ['coq/model/Dispatch.v is a hand-written model of _get_target_function / '
-                                        'apply_with_params; the search runs every image-only class with every other target'],
+                                        'apply_with_params, tied to the code by harness/corr_dispatch.py (random target tables, '
+                                        'additional targets, unknown and None-valued keys); the search runs every image-only class '
+                                        'with every other target'],
     'assumptions': ['RescaleSlopeIntercept rewrites two header fields by design (C16)'],
     'level_text': 'The target table of every image-only class ({image}) is a theorem over the class table regenerated '
                   'from the source; "keys outside the table pass through unchanged" and "the result has the keys it was '
